@@ -111,7 +111,7 @@ Theorem C16_nonvacuous :
   exists t1 t2,
     snd (run nv_cfg (PemOk [nv_entry 3 "old"]) nv_ops) =
       [XToken t1 true; XToken t1 true; XDone; XToken t2 true;
-       XJwks [spec_jwk (nv_entry 4 "new"); spec_jwk (nv_entry 3 "old")]] /\
+       XJwks [spec_jwk (nv_entry 5 "other"); spec_jwk (nv_entry 4 "new"); spec_jwk (nv_entry 3 "old")]] /\
     t_kid t1 = "old" /\ t_kid t2 = "new" /\ t_alg t2 = "PS384" /\
     mget "sub" (t_claims t2) = Some (VStr "alice") /\ mget "who" (t_claims t2) = Some (VStr "alice") /\
     mget "exp" (t_claims t2) = Some (VInt 1093%Z).
